@@ -5,7 +5,7 @@ from pathlib import Path
 META = {
     "level": "model_checking",
     "technique": "TLA+ relation Valid(mode, message) transcribed from the statement; TLC checks the transcribed decision procedure of GossipsubCodec::decode on the full abstract grid (with canaries) and evaluates the relation on every record produced by the real codec on concrete messages carrying real signatures",
-    "text": "Abstract grid: 4 validation modes x source {absent, empty, garbage, A, B} x sequence number {absent, empty, 4 bytes, 8 bytes} x signer {absent, garbage, A, B} x key field {absent, garbage, A, B} x post-signature mutation {none, source swapped, data flipped/dropped, seqno flipped/dropped, topic changed, signature bit flipped}, for key types with inlined (ed25519, secp256k1) and hashed (ecdsa, rsa) peer ids. TLC proves on all 40960 grid points that the transcribed codec logic surfaces a message as valid only if it satisfies its mode and rejects every mutated signed message in Strict mode; two canaries (Permissive skips signature verification; Anonymous tolerates a sequence number) are rejected. Every applicable grid point is then built as a real protobuf message (real key pairs, signatures per the pubsub spec), framed in an RPC and decoded by the real GossipsubCodec; TLC evaluates the statement on each verdict.",
+    "text": "Abstract grid: 4 validation modes x source {absent, empty, garbage, A, B} x sequence number {absent, empty, 4 bytes, 8 bytes} x signer {absent, garbage, A, B} (the real messages additionally with a present but empty signature field) x key field {absent, garbage, A, B} x post-signature mutation {none, source swapped, data flipped/dropped, seqno flipped/dropped, topic changed, signature bit flipped}, for key types with inlined (ed25519, secp256k1) and hashed (ecdsa, rsa) peer ids. TLC proves on all 40960 grid points that the transcribed codec logic surfaces a message as valid only if it satisfies its mode and rejects every mutated signed message in Strict mode; two canaries (Permissive skips signature verification; Anonymous tolerates a sequence number) are rejected. Every applicable grid point is then built as a real protobuf message (real key pairs, signatures per the pubsub spec), framed in an RPC and decoded by the real GossipsubCodec; TLC evaluates the statement on each verdict.",
     "note": "One direction only (surfaced valid => satisfies the mode) plus Strict mutation rejection; that well-formed messages ARE accepted is only measured (anti-vacuity). Empty source / empty seqno fields count as 'absent-like' in Permissive mode.",
     "design_ref": "6/C30",
 }
